@@ -694,6 +694,13 @@ func main() {
 		"structs":       exp.structs(),
 		"type_switches": typeSwitches(exp),
 	}
+	// plug-ins: other files of this package register `func(repo string, facts map[string]any)`
+	// in extraFacts from an init(); they add NEW top-level keys only.
+	for _, f := range extraFacts {
+		f(repo, facts)
+	}
+	addC15Facts(facts, syn, tj) // extract/c15.go: add-only keys for C15
+	facts["posend"] = posEndFacts(syn) // C09 (posend.go)
 	facts["problems"] = problems
 	enc := json.NewEncoder(os.Stdout)
 	enc.SetIndent("", " ")
